@@ -332,18 +332,82 @@ func (c *collector) take() ([]Event, []error) {
 	return e, r
 }
 
-// quiesce waits until everything raised so far has been handled and collected.
-func quiesce(c *collector) {
+func init() {
+	// the backend under test is this package's copy of the kqueue backend
+	engine.CodeFrames = []string{"harness/kq.(*kqueue).", "harness/kq.(*shared).", "harness/kq.(*watches).", "harness/kq.(*Watcher)."}
+	engine.BackendFrames = engine.CodeFrames
+	engine.CodeFrames = append([]string{"harness/kq.kCallFrame"}, engine.CodeFrames...)
+}
+
+// kWedged is the verdict of a wait that did not end: proof that the backend
+// can make no progress any more (a goroutine of it blocked for good with
+// nobody inside the backend able to run), or "" when there is no such proof.
+func kWedged() string {
+	for _, marker := range []string{"harness/kq.(*kqueue).readEvents", "harness/kq.kCallFrame"} {
+		if p := engine.BlockedProof(marker); p != "" {
+			return p
+		}
+	}
+	return ""
+}
+
+// kCallFrame marks API calls made by the harness in goroutine dumps.
+//
+//go:noinline
+func kCallFrame(f func()) { f() }
+
+// kCall runs one API call; it returns proof that the call is blocked for good,
+// or "" when it returned (a call that is merely slow ends the run as
+// inconclusive).
+func kCall(what string, f func()) string {
 	done := make(chan struct{})
-	go func() { unix.WaitIdle(); close(done) }()
+	gid := make(chan string, 1)
+	go func() {
+		gid <- engine.GoID()
+		kCallFrame(f)
+		close(done)
+	}()
+	marker := "gid:" + <-gid
+	for i := 0; i < 6; i++ {
+		select {
+		case <-done:
+			return ""
+		case <-time.After(5 * time.Second):
+		}
+		if p := engine.BlockedProof(marker); p != "" {
+			return what + " does not return\n" + p
+		}
+	}
 	select {
 	case <-done:
-	case <-time.After(30 * time.Second):
-		engine.ExitInconclusive("simulated kqueue did not become idle\n" + strings.Join(engine.Goroutines(), "\n\n"))
+		return ""
+	default:
 	}
-	// the reader sleeps in Kevent, so every send has completed (or sits in
-	// the channel buffer); let the collector store what it received
-	c.settle()
+	engine.ExitInconclusive(what + " is late but not provably blocked\n" + strings.Join(engine.Goroutines(), "\n\n"))
+	return ""
+}
+
+// quiesce waits until everything raised so far has been handled and collected.
+// It returns proof of a deadlock when the backend can provably never get there.
+func quiesce(c *collector) string {
+	done := make(chan struct{})
+	go func() { unix.WaitIdle(); close(done) }()
+	for i := 0; ; i++ {
+		select {
+		case <-done:
+			// the reader sleeps in Kevent, so every send has completed (or sits
+			// in the channel buffer); let the collector store what it received
+			c.settle()
+			return ""
+		case <-time.After(5 * time.Second):
+		}
+		if p := kWedged(); p != "" {
+			return "the backend never finishes handling what was raised\n" + p
+		}
+		if i >= 5 {
+			engine.ExitInconclusive("simulated kqueue did not become idle\n" + strings.Join(engine.Goroutines(), "\n\n"))
+		}
+	}
 }
 
 func evString(evs []Event) string {
@@ -478,7 +542,9 @@ func runScript(t *testing.T, text string) scriptResult {
 		t.Fatal(err)
 	}
 	col := collect(w)
-	quiesce(col)
+	if p := quiesce(col); p != "" {
+		panic(p)
+	}
 	must := func(err error, c []string) {
 		if err != nil {
 			t.Fatalf("script command %q: %v", c, err)
@@ -535,15 +601,26 @@ loop:
 			} else {
 				data, op, dst = c[1], c[2], c[3]
 			}
-			must(kEcho(op == ">", data, tmppath(tmp, dst), func() { quiesce(col) }), c)
+			must(kEcho(op == ">", data, tmppath(tmp, dst), func() {
+				if p := quiesce(col); p != "" {
+					panic(p)
+				}
+			}), c)
 		default:
 			t.Fatalf("script: unknown command %q", c)
 		}
-		quiesce(col)
+		if p := quiesce(col); p != "" {
+			panic(p)
+		}
 	}
 	evs, _ := col.take()
 	w.Close()
-	<-col.done
+	select {
+	case <-col.done:
+	case <-time.After(2 * time.Second):
+		// the reader does not exit after Close: the generated cases report
+		// that (C17); the script's events can be compared regardless
+	}
 	for _, e := range evs {
 		n := e.Name
 		if n == tmp {
